@@ -55,7 +55,19 @@ CLAIM = dict(
          'is <= e; "exactly those ranks" for exact-rank inputs; minimality of q in the rank rule (q>1 => tail(q-1) > e^2) is '
          'tied by the bit-exact threshold stream and the search, not proved; the Frobenius norm of the full_matrix round trip as '
          'a sum (only the entrywise transport is proved); matrix_svd belongs to C02 (searched lightly here).',
-    note='Model tied to /repo on every run by bit-for-bit comparison (PrimFloat instance, recorded np.linalg.svd outputs '
+    note='Cross-cutting families (correspondence stream f_forms / history and search clauses forms, history, pow2, herm): '
+         'argument forms (dense input as int64 / int32 / uint8 / F-ordered / strided / negative-stride arrays; e as Python float / '
+         'int / np.float64 / 0-d array incl. e = 0; r as int / float / np.int64 / np.int32 / np.float64 / 0-d array; rel and hermitian '
+         'as bool / int / np.bool_; give_to explicit vs default; int / F-ordered / strided / mixed cores for full_matrix) must give '
+         'results bit-identical to the canonical form and to the model; the same objects used twice and interleaved across the '
+         'four routines give identical results and are bit-identical afterwards; exact power-of-two rescalings 2^+-100..2^+-500 '
+         '(equivariance bit-exact up to 2^+-300, the property itself at every scale), exact ties tail == e^2 at 2^+-500, mode '
+         'size 1, d = 2, matrix_skeleton(hermitian=True) on exactly symmetric input. Kept OUT on purpose: float32 input is '
+         'checked only up to float32 rounding (the result is float32, error ~1e-7 |A|: the bound e*sqrt(d-1) cannot hold below '
+         'that; np.float32 e is compared through the property because e**2 is then rounded to float32); float16 input and list '
+         'input raise (TypeError / AttributeError: not ndarrays LAPACK accepts); scales beyond 2^+-500 and subnormal data, where '
+         'the SQUARED spectrum under/overflows, are outside the property (singular values below ~2^-537 have zero computed '
+         'energy). Model tied to /repo on every run by bit-for-bit comparison (PrimFloat instance, recorded np.linalg.svd outputs '
          'replayed by call number) of every core of svd / svd_matrix and both factors of matrix_skeleton, incl. e placed exactly '
          'at and 1e-9 around every rank change; exact Z comparison of the interleaved array (captured from svd_matrix) and of '
          'full_matrix in both orders; malformed shapes by exception class. Reverting fix 9b72a17 (give_to="r") is detected by '
@@ -327,6 +339,54 @@ def _cap(rng):
     return rng.choice([RDEF, RDEF, 1e12, 1, 2, 3, 2.7, 4])
 
 
+
+# ----------------------------------------------------------------------------------------------------
+# argument forms / histories (cross-cutting families)
+# ----------------------------------------------------------------------------------------------------
+
+ARR_FLOAT_FORMS = ['c', 'f', 'strided', 'negstride']
+ARR_INT_FORMS = ['int64', 'int32', 'uint8', 'f_int']
+R_FORMS = ['int', 'float', 'np_int64', 'np_int32', 'np_float64', 'arr0d']
+E_FORMS = ['float', 'np64', 'arr0d']
+
+
+def _arr_form(A, form):
+    """the same values as the float64 C-contiguous array A, in another documented form of np.ndarray"""
+    A = np.ascontiguousarray(np.array(A, float))
+    if form == 'c':
+        return A.copy()
+    if form == 'f':
+        return np.asfortranarray(A)
+    if form == 'strided':
+        B = np.zeros(A.shape[:-1] + (2 * A.shape[-1],))
+        B[..., ::2] = A
+        return B[..., ::2]
+    if form == 'negstride':
+        return A[::-1].copy()[::-1]
+    if form == 'f_int':
+        return np.asfortranarray(A.astype(np.int64))
+    return A.astype(dict(int64=np.int64, int32=np.int32, uint8=np.uint8)[form])
+
+
+def _r_form(r, form):
+    """forms of the cap whose int() is int(r)"""
+    k = int(r)
+    return dict(int=k, float=k + 0.7, np_int64=np.int64(k), np_int32=np.int32(min(k, 2 ** 31 - 1)),
+                np_float64=np.float64(k + 0.2), arr0d=np.array(k))[form]
+
+
+def _e_form(e, form):
+    return dict(float=float(e), np64=np.float64(e), arr0d=np.array(float(e)))[form]
+
+
+def _flag_form(b, i):
+    return [bool(b), int(b), np.bool_(b)][i % 3]
+
+
+def _same_list(Y1, Y2):
+    return len(Y1) == len(Y2) and all(np.shape(a) == np.shape(b) and np.array_equal(a, b, equal_nan=True)
+                                      for a, b in zip(Y1, Y2))
+
 # ----------------------------------------------------------------------------------------------------
 # correspondence
 # ----------------------------------------------------------------------------------------------------
@@ -550,6 +610,97 @@ def correspondence(R, ctx):
         return _cmp_cores(v[1:], Y) if code == 0 else None
     bad_all += _float_stream(R, 'f_svd_matrix', items, cmp_res, dist, chunk=8)
 
+    # ---- 4b. f_forms: argument forms, histories, power-of-two scales (model evaluated on the canonical values)
+    items, dist, hist_bad = [], dict(routine={}, array={}, e={}, r={}, pow2={}), []
+    gv = {'l': 'GiveL', 'r': 'GiveR', 'm': 'GiveM'}
+
+    def twice(call, objs, inp):
+        """history: the same argument objects used twice; results identical, arguments bit-identical afterwards"""
+        before = [o.tobytes() for o in objs]
+        with SvdRec() as rec:
+            out1 = call()
+        out2 = call()
+        if not _same_list(list(out1), list(out2)):
+            hist_bad.append(dict(stream='history', input=inp, message='second call on the same objects differs'))
+        if [o.tobytes() for o in objs] != before:
+            hist_bad.append(dict(stream='history', input=inp, message='argument array modified by the call'))
+        return out1, rec
+
+    for i in range(60 * mult):
+        routine = ['svd', 'svd', 'skeleton', 'svd_matrix'][i % 4]
+        integer = (i // 4) % 2 == 0
+        aform = (ARR_INT_FORMS if integer else ARR_FLOAT_FORMS)[rng.randrange(4)]
+        rform = R_FORMS[rng.randrange(len(R_FORMS))]
+        eform = E_FORMS[rng.randrange(len(E_FORMS))]
+        r = rng.choice([RDEF, RDEF, 1, 2, 3])
+        k2 = 0
+        if routine == 'svd':
+            ns = _gen_shape(rng, dmax=4, nmax=4, total=120)
+        elif routine == 'skeleton':
+            ns = [rng.randint(1, 5), rng.randint(1, 5)]
+        else:
+            ns = [2 ** rng.randint(1, 3)] * 2
+        if integer:
+            lo = 0 if aform == 'uint8' else -4
+            A = g.integers(lo, 5, size=ns).astype(float)
+        else:
+            A = g.normal(size=ns)
+            if i % 3 == 0:
+                k2 = rng.choice([-500, -400, 400, 500])
+                A = A * 2.0 ** k2
+        nrm = float(np.linalg.norm(A))
+        ekind = rng.choice(['rel', 'rel', 'zero', 'int'])
+        if ekind == 'zero':
+            e_can, e_arg = 0.0, rng.choice([0, 0.0, np.float64(0)])
+        elif ekind == 'int' and integer:
+            e_can = float(rng.randint(1, 4))
+            e_arg = int(e_can)
+        else:
+            e_can = _pick_e(rng, max(nrm, 1e-300) * rng.choice([1e-9, 1e-3, 0.1, 0.4]))
+            e_arg = _e_form(e_can, eform)
+        Av, r_arg = _arr_form(A, aform), _r_form(r, rform)
+        inp = dict(kind='forms', routine=routine, A=_pack(A), aform=aform, eform=eform, rform=rform,
+                   e=float(e_can).hex(), e_arg=repr(e_arg), r=float(int(r)), pow2=k2)
+        with np.errstate(all='ignore'):
+            if routine == 'svd':
+                Y, rec = twice(lambda: tn.svd(Av, e_arg, r_arg), [Av], inp)
+                coq = f'showY (svd OF {_orc(rec.calls)} {C.natlist(ns)} {_flist(A)} {_fe(e_can)} {C.zlit(int(r))})'
+                items.append(dict(coq=coq, impl=('Y', Y), input=inp, shapes=[G.shape for G in Y]))
+            elif routine == 'svd_matrix':
+                Y, rec = twice(lambda: tn.svd_matrix(Av, e_arg, r_arg), [Av], inp)
+                coq = f'showR (svd_matrix OF {_orc(rec.calls)} {_fmat(A)} {_fe(e_can)} {C.zlit(int(r))})'
+                items.append(dict(coq=coq, impl=('R', Y), input=inp, shapes=[G.shape for G in Y]))
+            else:
+                give = rng.choice(['l', 'r', 'm', None])
+                rel = rng.random() < 0.4 and bool(np.any(A))
+                kw = dict(rel=_flag_form(rel, i), hermitian=_flag_form(False, i + 1))
+                if give is not None:
+                    kw['give_to'] = give
+                if rel:
+                    e_can = _pick_e(rng, rng.choice([1e-9, 1e-2, 0.3]))
+                    e_arg = _e_form(e_can, eform)
+                UV, rec = twice(lambda: tn.matrix_skeleton(Av, e_arg, r_arg, **kw), [Av], inp)
+                inp.update(rel=bool(rel), give_to=give or 'm', e=float(e_can).hex(), e_arg=repr(e_arg))
+                coq = (f'showUV (matrix_skeleton OF {_orc(rec.calls)} 0 {_fmat(A)} {_fe(e_can)} {C.zlit(int(r))} '
+                       f'{"true" if rel else "false"} {gv[give or "m"]})')
+                items.append(dict(coq=coq, impl=('UV', list(UV)), input=inp, shapes=[M.shape for M in UV]))
+        note_contract(rec.calls, inp, rec.herm)
+        for key, val in (('routine', routine), ('array', aform), ('e', ekind + '/' + eform), ('r', rform), ('pow2', k2)):
+            dist[key][str(val)] = dist[key].get(str(val), 0) + 1
+
+    def cmp_forms(v, impl):
+        tag, out = impl
+        if tag == 'Y':
+            return _cmp_cores(v, out)
+        if tag == 'R':
+            return cmp_res(v, (0, out))
+        return cmp_uv(v, out)
+    bad_all += _float_stream(R, 'f_forms', items, cmp_forms, dist, chunk=12)
+    R.corr.append(dict(name='history', cases=2 * len(items), mismatches=len(hist_bad),
+                       comparison='same argument objects used twice: bit-identical results, argument bytes unchanged',
+                       distribution={}, first_mismatches=hist_bad[:3]))
+    bad_all += hist_bad
+
     # ---- 5. z_interleave (exact, instance Z)
     items = []
     dist = dict(interleave_q=[], full_matrix=0, malformed=0)
@@ -572,7 +723,14 @@ def correspondence(R, ctx):
             modes = [2, 8]                  # product is 4^q: numpy accepts it
         Y = [g.integers(-3, 4, size=(rk[k], modes[k], rk[k + 1])) for k in range(q)]
         for order in ('F', 'C'):
-            rr = C.call_impl(tn.full_matrix, [G.astype(float) for G in Y], order)
+            forms = [lambda G: G.astype(float), lambda G: G.astype(np.int32), lambda G: np.asfortranarray(G.astype(float)),
+                     lambda G: G.astype(np.int64)[:, ::-1, :][:, ::-1, :]]
+            Yv = [forms[(i + k) % 4](G) for k, G in enumerate(Y)]          # mixed int / float / F-ordered / strided cores
+            saved = [G.tobytes() for G in Yv]
+            rr = C.call_impl(tn.full_matrix, Yv, order) if order == 'C' or i % 2 else C.call_impl(tn.full_matrix, Yv)
+            rr2 = C.call_impl(tn.full_matrix, Yv, order)
+            if rr != rr2 or [G.tobytes() for G in Yv] != saved:
+                rr = [9]                                                   # history violated: shows up as a mismatch
             impl = [[0, 2 ** q, 2 ** q]] + [[int(x) for x in row] for row in rr[1]] if rr[0] == 0 else [[rr[0]]]
             items.append(dict(coq=f'showMZ (full_matrix OZ [{"; ".join(_zcore(G) for G in Y)}] '
                                   f'{"true" if order == "F" else "false"})', impl=impl,
@@ -677,6 +835,15 @@ def _clause_fullmatrix(tn, Y):
     """full_matrix inverts the interleaving (exact on integer data)"""
     inp = dict(kind='full_matrix', cores=[_pack(G) for G in Y])
     M = tn.full_matrix(Y)
+    # argument forms of the cores (the data are integers): int dtypes, F-ordered, strided, mixed; twice; bytes unchanged
+    forms = [lambda G: G.astype(np.int32), lambda G: np.asfortranarray(G), lambda G: G.astype(np.int64)[:, ::-1, :][:, ::-1, :],
+             lambda G: G.astype(np.uint8) if G.min() >= 0 else G.astype(np.int64)]
+    for sh in range(2):
+        Yv = [forms[(k + sh) % 4](G) for k, G in enumerate(Y)]
+        saved = [G.tobytes() for G in Yv]
+        M1, M2 = tn.full_matrix(Yv), tn.full_matrix(Yv, 'F')
+        if not (np.array_equal(M1, M) and np.array_equal(M2, M)) or [G.tobytes() for G in Yv] != saved:
+            return dict(what='full_matrix: int / F-ordered / strided cores change the result, or the cores are modified', input=inp)
     with SvdStub() as st:
         tn.svd_matrix(M, 1e-10, RDEF)
     Z = st.args[0]
@@ -758,9 +925,134 @@ def _clause_thr(tn, p):
     return None
 
 
+def _clause_forms(tn, p):
+    """argument forms + history: a documented form of the arguments gives bit-identical results to the canonical form
+    (float64 C-contiguous array, Python float e, Python int r); the same objects used twice give the same result and are
+    bit-identical afterwards"""
+    A = _unpack(p['A'])
+    e, r, routine = float.fromhex(p['e']), int(p['r']), p['routine']
+    aform, eform, rform = p['aform'], p['eform'], p['rform']
+    if aform == 'float32':
+        Av = A.astype(np.float32)
+    else:
+        Av = _arr_form(A, aform)
+    if eform == 'np32':
+        e_arg = np.float32(e)
+        e = float(e_arg)
+    elif eform == 'int':
+        e_arg = int(e)
+    else:
+        e_arg = _e_form(e, eform)
+    r_arg = _r_form(r, rform)
+    kw = {}
+    if routine == 'skeleton':
+        rel, give = bool(p.get('rel', False)), p.get('give_to', 'm')
+        kw = dict(rel=_flag_form(rel, p.get('fi', 0)), give_to=give)
+        can = lambda: list(tn.matrix_skeleton(A.copy(), e, r, rel=rel, give_to=give))
+        var = lambda: list(tn.matrix_skeleton(Av, e_arg, r_arg, **kw))
+        if give == 'm' and p.get('fi', 0) % 2:
+            var = lambda: list(tn.matrix_skeleton(Av, e_arg, r_arg, rel=kw['rel']))      # default give_to omitted
+    elif routine == 'svd_matrix':
+        can = lambda: tn.svd_matrix(A.copy(), e, r)
+        var = lambda: tn.svd_matrix(Av, e_arg, r_arg)
+    else:
+        can = lambda: tn.svd(A.copy(), e, r)
+        var = lambda: tn.svd(Av, e_arg, r_arg)
+    before = Av.tobytes()
+    Y0, Y1, Y2 = can(), var(), var()
+    if Av.tobytes() != before:
+        return dict(what=f'{routine}: the input array is modified by the call', input=p)
+    if not _same_list(Y1, Y2):
+        return dict(what=f'{routine}: two calls on the same argument objects give different results', input=p)
+    if aform == 'float32':
+        if routine != 'svd':
+            return None
+        nrm = float(np.linalg.norm(A))
+        err = float(np.linalg.norm(A - _full([np.asarray(G, float) for G in Y1])))
+        cap = max(1, r)
+        if not any(G.shape[2] >= cap for G in Y1[:-1]) and err > e * math.sqrt(A.ndim - 1) * (1 + 1e-6) + 1e-4 * nrm:
+            return dict(what='svd(float32 input): error beyond e*sqrt(d-1) + float32 rounding', input=p, got=err)
+        return None
+    if eform == 'np32':
+        # float32 e: e**2 is rounded to float32; only the decision at a tie may differ, so compare through the property
+        return _clause_svd(tn, A, e * (1 + 1e-6), r) if routine == 'svd' and not _same_list(Y0, Y1) else None
+    if not _same_list(Y0, Y1):
+        return dict(what=f'{routine}: argument form ({aform}, e {eform}, r {rform}, {kw}) changes the result', input=p,
+                    got=[np.shape(G) for G in Y1], expected=[np.shape(G) for G in Y0])
+    return None
+
+
+def _clause_pow2(tn, p):
+    """exact power-of-two rescaling of the whole input (squared spectrum representable): the property at that scale,
+    and for |k| <= 300 exact equivariance (cores identical, last core scaled)"""
+    A, e, r, k = _unpack(p['A']), float.fromhex(p['e']), p['r'], p['k']
+    As, es = A * 2.0 ** k, e * 2.0 ** k
+    f = _clause_svd(tn, As, es, r)
+    if f:
+        f['what'] += f' (input scaled by 2^{k})'
+        return f
+    if abs(k) <= 300:
+        Y0, Yk = tn.svd(A, e, r), tn.svd(As, es, r)
+        ok = len(Y0) == len(Yk) and all(a.shape == b.shape for a, b in zip(Y0, Yk)) and \
+            all(np.array_equal(a, b) for a, b in zip(Y0[:-1], Yk[:-1])) and np.array_equal(Y0[-1] * 2.0 ** k, Yk[-1])
+        if not ok:
+            return dict(what=f'svd: result is not equivariant under the exact rescaling 2^{k} of data and e', input=p,
+                        got=[G.shape for G in Yk], expected=[G.shape for G in Y0])
+    return None
+
+
+def _clause_herm(tn, p):
+    """matrix_skeleton(hermitian=True) on an EXACTLY symmetric matrix: same clauses as the general path"""
+    A, e, r = _unpack(p['A']), float.fromhex(p['e']), p['r']
+    m = A.shape[0]
+    nrm = float(np.linalg.norm(A))
+    U, V = tn.matrix_skeleton(A, e, r, hermitian=_flag_form(True, p.get('fi', 0)), give_to=p.get('give_to', 'r'))
+    U0, V0 = tn.matrix_skeleton(A, e, r, give_to=p.get('give_to', 'r'))
+    q = U.shape[1]
+    if U.shape != (m, q) or V.shape != (q, m) or q != U0.shape[1]:
+        return dict(what='matrix_skeleton(hermitian=True): shapes / inner size differ from the general path', input=p,
+                    got=[U.shape, V.shape], expected=[U0.shape, V0.shape])
+    s = np.linalg.svd(A, compute_uv=False)
+    best = math.sqrt(float(np.sum(s[q:] ** 2)))
+    if abs(np.linalg.norm(A - U @ V) - best) > 1e-10 * nrm + 1e-300:
+        return dict(what='matrix_skeleton(hermitian=True): product is not a best rank-q approximation', input=p,
+                    got=float(np.linalg.norm(A - U @ V)), expected=best)
+    return None
+
+
+def _clause_history(tn, p):
+    """interleaved use of the same objects by all four routines"""
+    M = _unpack(p['A'])                  # 2^q x 2^q
+    e, r = float.fromhex(p['e']), p['r']
+    saved = M.tobytes()
+    outs = []
+    for _ in range(2):
+        Y = tn.svd_matrix(M, e, r)
+        T = tn.svd(M, e, r)
+        UV = tn.matrix_skeleton(M, e, r)
+        Yc = [G.tobytes() for G in Y]
+        F1, F2 = tn.full_matrix(Y), tn.full_matrix(Y, 'F')
+        if [G.tobytes() for G in Y] != Yc or not np.array_equal(F1, F2):
+            return dict(what='full_matrix: modifies its argument / default order differs from order="F"', input=p)
+        outs.append(list(Y) + list(T) + list(UV) + [F1])
+    if M.tobytes() != saved:
+        return dict(what='svd / svd_matrix / matrix_skeleton: the input matrix is modified', input=p)
+    if not _same_list(outs[0], outs[1]):
+        return dict(what='interleaved calls on the same objects: second round differs from the first', input=p)
+    return None
+
+
 def _run_clause(tn, p):
     k = p['kind']
     with np.errstate(all='ignore'):
+        if k == 'forms':
+            return _clause_forms(tn, p)
+        if k == 'pow2':
+            return _clause_pow2(tn, p)
+        if k == 'herm':
+            return _clause_herm(tn, p)
+        if k == 'history':
+            return _clause_history(tn, p)
         if k == 'skeleton_thr':
             return _clause_thr(tn, p)
         if k == 'svd':
@@ -827,13 +1119,51 @@ def search(R, ctx, deep, hints):
 
     for h in hints[:20]:
         inp = h.get('input')
-        if isinstance(inp, dict) and inp.get('kind') in ('svd', 'svd_matrix', 'skeleton', 'skeleton_thr'):
+        if isinstance(inp, dict) and inp.get('kind') in ('svd', 'svd_matrix', 'skeleton', 'skeleton_thr', 'forms'):
             ev(inp)
     # exact thresholds (tail energy == e): diag(5,4,3): tails 5*sqrt(2), 5, 3
     for sc in (1.0, 2.0 ** -20, 2.0 ** 20):
         for diag, e, want in (([5, 4, 3], 3, 2), ([5, 4, 3], 5, 1), ([4, 3], 3, 1), ([3, 4, 12], 5, 1),
                               ([5, 4, 3], 2.999999, 3), ([5, 4, 3], 4.999999, 2)):
             ev(dict(kind='skeleton_thr', diag=diag, e=e, want=want, scale=sc))
+    # exact ties at extreme scales (squared spectrum representable)
+    for sc in (2.0 ** -500, 2.0 ** 500):
+        for diag, e, want in (([5, 4, 3], 3, 2), ([5, 4, 3], 5, 1), ([4, 3], 3, 1)):
+            ev(dict(kind='skeleton_thr', diag=diag, e=e, want=want, scale=sc))
+    # argument forms and histories
+    for i in range(300 if deep else 70):
+        routine = ['svd', 'svd', 'skeleton', 'svd_matrix'][i % 4]
+        integer = (i // 4) % 2 == 0
+        aform = (ARR_INT_FORMS if integer else ARR_FLOAT_FORMS + ['float32'])[rng.randrange(4 if integer else 5)]
+        ns = _gen_shape(rng, dmax=4, nmax=4, total=120) if routine == 'svd' else \
+            ([rng.randint(1, 5), rng.randint(1, 5)] if routine == 'skeleton' else [2 ** rng.randint(1, 3)] * 2)
+        A = g.integers(0 if aform == 'uint8' else -4, 5, size=ns).astype(float) if integer else g.normal(size=ns)
+        nrm = max(float(np.linalg.norm(A)), 1e-300)
+        eform = rng.choice(E_FORMS + ['np32'] + (['int'] if integer else []))
+        e = float(rng.randint(0, 3)) if eform == 'int' else nrm * rng.choice([0.0, 1e-9, 1e-3, 0.1, 0.4])
+        rel = routine == 'skeleton' and i % 3 == 0 and bool(np.any(A))
+        if rel:
+            e = rng.choice([1e-9, 1e-2, 0.3])
+        ev(dict(kind='forms', routine=routine, A=_pack(A), aform=aform, eform=eform, rform=rng.choice(R_FORMS),
+                e=float(e).hex(), r=float(rng.choice([RDEF, RDEF, 1, 2, 3])), rel=rel,
+                give_to=rng.choice(['l', 'r', 'm']), fi=rng.randrange(6)))
+    for i in range(60 if deep else 12):
+        N = 2 ** rng.randint(1, 3)
+        M = g.normal(size=(N, N)) if i % 2 else g.integers(-3, 4, size=(N, N)).astype(float)
+        ev(dict(kind='history', A=_pack(M), e=(max(float(np.linalg.norm(M)), 1e-300) * rng.choice([1e-9, 0.1])).hex(),
+                r=float(rng.choice([RDEF, 2]))))
+        S = M + M.T if i % 3 else M @ M.T
+        if i % 5 == 0:
+            S = np.zeros((N, N))
+        ev(dict(kind='herm', A=_pack(S), e=(max(float(np.linalg.norm(S)), 1e-300) * rng.choice([1e-9, 0.1, 0.4])).hex(),
+                r=float(rng.choice([RDEF, 2])), give_to=rng.choice(['l', 'r', 'm']), fi=i))
+    # exact power-of-two rescalings
+    for i in range(150 if deep else 36):
+        ns = _gen_shape(rng, dmax=4, nmax=4, total=150)
+        A = _gen_tensor(g, rng, rng.choice(['full', 'full', 'lowrank', 'int', 'rank1']), ns)
+        nrm = max(float(np.linalg.norm(A)), 1e-300)
+        ev(dict(kind='pow2', A=_pack(A), e=(nrm * rng.choice([1e-8, 1e-3, 0.05, 0.3])).hex(), r=float(RDEF),
+                k=rng.choice([-500, -400, -300, -100, -1, 1, 100, 300, 400, 500])))
     # degenerate families first
     for ns in ([2, 2], [3, 1, 2], [1, 1], [2, 3, 2], [4, 1], [1, 3, 1, 2]):
         for sc in (1e-6, 1.0, 1e6):
